@@ -21,6 +21,10 @@ def c01(quick):
         S.append((D(mode=mode, nj=2, pre=3, bs=1, managed=True, calls=[dict(n=4), dict(n=3)]), "random", rnd))
     S.append((D(mode=LIST, nj=2, pre=4, bs=1, rc=False, calls=[dict(n=5)]), "dfs", lim))
     S.append((D(mode=LIST, nj=2, pre=2, bs=2, rc=False, calls=[dict(n=7)]), "random", rnd))
+    # the real AutoBatchingMixin, fed with scripted (virtual) task durations: fast / ideal / slow / very slow
+    for mode in (LIST, GEN):
+        S.append((D(mode=mode, nj=2, pre="2*n_jobs", bs="auto", autobatch=[0.0004, 0.02, 0.4, 3.0], calls=[dict(n=60)]), "random", rnd))
+        S.append((D(mode=mode, nj=3, pre="2*n_jobs", bs="auto", autobatch=[0.0001, 1.5], calls=[dict(n=90), dict(n=20)]), "random", rnd))
     return S
 
 
